@@ -4,7 +4,7 @@ import json
 
 CHECKS = {
  "C01": ("exploration", "world", "model-based stateful PBT (Hypothesis): generated mutator programs vs a plain dict/list model, independent read of the resource after every call",
-         "Generated operation programs over all 18 classes, nested handles of any depth, every public mutator; after each call the resource is read without the library and compared with a built-in model. Exploration: says nothing about programs not generated.",
+         "Generated operation programs over all 18 classes, nested handles of any depth, every public mutator; after each call the resource is read without the library and compared with a built-in model; JSON classes under all four write configurations (write_concern x threading support), with rejected (forbidden-data) calls mixed in. Second part, complete product: every mutator with the k-th file-system call of its save failing (or the fake store failing): a call that returns must have written. Exploration: says nothing about programs not generated.",
          "Redis/MongoDB/Zarr via call-compatible fakes; == on plain data; key order ignored", "3 C01"),
  "C02": ("exploration", "world", "model-based stateful PBT (Hypothesis) with a generated outside writer steering (old kind -> new kind) rewrites; reads through roots and retained handles vs plain model",
          "Generated histories of reads/writes through 1-2 objects and retained child handles interleaved with out-of-band rewrites of any position to any JSON kind; every outcome is compared with the model of the resource at call time. Exploration over generated histories; the 4x4 kind-pair matrix of non-trivial reads is reported and must be full in the thorough tier.",
@@ -22,13 +22,13 @@ CHECKS = {
          "Generated histories over 2-3 objects bound to one file in one common buffered state (class-wide, per-object with permuted exits, or both), generator steered so that ~30% of cases have a pure reader flushed before a later writer; reads inside the context, the file after the common exit and every object afterwards must equal the model.",
          "only identical buffered states (mixed states are documented as unsupported); known findings K1/K2 excluded by construction while they reproduce", "3 C06"),
  "C07": ("exploration", "c07-scenarios", "scenario PBT (Hypothesis; exhaustive product for n<=2 files in thorough): role x outside-change x context-kind vectors with an outside writer, oracle = exact conflict set, file contents, buffer state, second session",
-         "Generated (and for n<=2 exhaustively enumerated) assignments of roles and outside changes to 1-4 buffered files under five context kinds including two ways of forcing a flush; checks the exact exception type and conflict set, that outside content survives, clean files are written, read-only files are never written, and that the buffer/capacity/state afterwards allow a clean second session.",
+         "Generated (and for n<=2 exhaustively enumerated) assignments of roles and outside changes to 1-4 buffered files under five context kinds including two ways of forcing a flush; also files that do not exist when they enter the buffer (the outside change creates them), a second read-only object per file, and a small class-wide capacity around buffer_backend(cap); checks the exact exception type and conflict set, that outside content survives, clean files are written, read-only files are never written, and that the buffer/capacity/state afterwards allow a clean second session.",
          "outside writer always changes (size, mtime_ns); whether a forcing operation that raises applied its own change is left open (the statement does not say)", "3 C07"),
  "C15": ("exploration", "acctworld", "model-based stateful PBT (Hypothesis): generated context/capacity/operation programs vs a documented-semantics model of buffer size and capacity, checked after every step",
-         "Generated programs over 2-4 files with nested contexts, capacity arguments and set_buffer_capacity incl. capacities below one document; after every step size == model, size <= capacity, size == 0 outside contexts, capacity == model stack, and every file without pending buffered modifications is current on disk.",
+         "Generated programs over 2-4 files with nested contexts, capacity arguments and set_buffer_capacity incl. capacities below one document; some exits hit an injected I/O error (then only the bookkeeping is still judged); after every step size == model, size <= capacity, size == 0 outside contexts, capacity == model stack, and every file without pending buffered modifications is current on disk.",
          "type-stable value alphabet; under an overflow the model admits 'all flushed' or 'only the accessed file re-entered' (operations load a varying number of times) and adopts the observed one", "3 C15"),
  "C11": ("exploration", "c11-product", "exhaustive enumeration of the finite (entry point x target x invalid item x embedding x class) product plus Hypothesis random embeddings; oracle = exception family + forbidden-item walk of memory and backend",
-         "The whole finite product (about 50k cases) is enumerated in both tiers ('exhaustive': true for that product) and extended by random deeper embeddings; each case checks the exception family, walks the in-memory node tree and the independently read resource for any forbidden item, and for single-element entry points demands byte-identical backend and unchanged memory.",
+         "The whole finite product (about 50k cases) is enumerated in both tiers ('exhaustive': true for that product) and extended by random deeper embeddings; incl. entry points that merge the argument into an existing nested container and live synced collections as values; a third part offers forbidden data from a second thread while another is mid-operation (deterministic scheduler); each case checks the exception family, walks the in-memory node tree and the independently read resource for any forbidden item, and for single-element entry points demands byte-identical backend and unchanged memory.",
          "forbidden set per family as listed in the evidence assumptions; public API cross-checked by introspection (unknown public attribute = harness error)", "3 C11"),
  "C12": ("exploration", "c12-roundtrip", "round-trip PBT: exhaustive small value domain + Hypothesis JSON values + boundary list through every entry point, read back through a fresh object with a leaf-type-exact comparison",
          "Every value is stored through every entry point at four target depths over an empty or an existing (==-colliding) prior value, then read through a fresh collection object and from the raw resource; equality and JSON leaf types must match exactly.",
@@ -37,13 +37,13 @@ CHECKS = {
          "Generated inbound (all entry points, also inside buffered contexts), outbound (every container-returning API) and cross-assignment cases for all 18 classes; every container reachable from the user-held value is mutated afterwards and the object, a fresh object and the raw resource must be unchanged; (), values(), items() must be built-in data at every depth.",
          "pop/popitem/del: only 'mutating the removed value changes nothing' is required; fakes for Redis/MongoDB/Zarr", "3 C16"),
  "C17": ("exploration", "roworld", "stateful PBT (Hypothesis) of read-only programs with an audit-hook recorder and stat/bytes/listing invariants after every step",
-         "Generated read-only programs (every read API, comparisons, repr/str, nested reads, context enter/exit) on existing and missing resources for all 18 classes; after every step no write event was audited, the file's bytes/inode/mtime and the directory listing are unchanged and the fakes counted no mutating call.",
+         "Generated read-only programs (every read API, comparisons, repr/str, nested reads, context enter/exit, overlapping per-object contexts of two objects) on existing and missing resources for all 18 classes, optionally next to a bystander object on another file that is written and capacity changes that force flushes, and an outside writer that re-stores the same data in another textual form; after every step no write event was audited, the file's bytes/inode/mtime and the directory listing are unchanged and the fakes counted no mutating call.",
          "audit hooks see Python-level file operations; fakes count set/replace_one/require_dataset/__setitem__", "3 C17"),
  "C18": ("exploration", "famworld+attr", "stateful PBT (Hypothesis): node-class/_root invariant after every step of mutator/rewrite/context programs; differential attribute-vs-item programs on attr dicts against a plain dict",
-         "Part (a): after every step of generated programs (mutators, kind-changing outside rewrites, buffered contexts) every reachable node has exactly the family's dict/list class and the right root, and the deepest node persists a write. Part (b): generated get/set/del programs in attribute and item syntax over key pools incl. every protected name, public method name and dunders, at depth 0-3.",
+         "Part (a): after every step of generated programs (mutators, kind-changing outside rewrites, buffered contexts) every reachable node has exactly the family's dict/list class and the right root, and the deepest node persists a write. Part (b): generated get/set/del programs in attribute and item syntax over key pools incl. every protected name, public method name and dunders, at depth 0-3, plus attribute SET of protected names and obj.filename retargeting. Part (c), enumerated: two objects of different classes of one data type on one file (unbuffered / buffered), each must stay inside its own family. Known finding K4 excluded while it reproduces.",
          "attribute set/del of live internals not generated (reconfigures the object by design)", "3 C18"),
  "C19": ("exploration", "zygote", "fresh-process differential PBT: fingerprint of a probe in a pristine forked child vs after a generated warm-up history; all ordered pairs enumerated, longer histories by Hypothesis",
-         "For a pool of ~75 values of diverse/ambiguous/same-named types, every resolver, validator and collection entry point is run on a probe value in a pristine fork and in a fork that first processed a warm-up history; fingerprints (category, accept/exception class, stored form, node classes) must be identical. All ordered pairs (warm-up length 1) are enumerated in both tiers, longer warm-ups are generated.",
+         "For a pool of ~90 values of diverse/ambiguous/same-named types (incl. short-lived classes, NaN/inf, instances that sabotage their own first classification, deeply nested values), every resolver, validator and collection entry point is run on a probe value in a pristine fork and in a fork that first processed a warm-up history; fingerprints (category, accept/exception class, stored form, node classes) must be identical. All ordered pairs (warm-up length 1) are enumerated in both tiers, longer warm-ups are generated.",
          "types exist before anything is processed; fork() copy of a zygote that has processed nothing; private numpy under .deps", "3 C19"),
  "C09": ("exploration", "sched", "schedule-exploring PBT: Hypothesis-generated multi-threaded programs run under a harness-owned deterministic scheduler (all single-preemption schedules / all preemption sites, sampled 2-3 preemptions), linearizability oracle against all serial orders of a plain model",
          "Generated 2-3 thread programs over every mutator (shared object, second object on the file, pre-taken nested handles) are executed under a deterministic scheduler that owns every lock and every line-level preemption point; every executed schedule's outcomes and final file must be explained by some serial order of the operations on a plain model, and no schedule may deadlock.",
@@ -52,7 +52,7 @@ CHECKS = {
          "Part A enumerates, per JSON class, every operation with every injected fault (content, rejected value, OSError at each file-system call of the load and save) unbuffered and buffered, then lets a second thread use the same object, a sibling object and another file: no lock may stay owned, nothing may deadlock ('exhaustive': true for that product). Parts B/C explore generated lock-mixing programs (incl. object construction and buffered clear/reset) and filename retargeting under all single-preemption schedules.",
          "only named faults injected; deadlock exact inside the cooperative scheduler; locks not created through threading.RLock/Lock would be a harness error", "2.6-2.8 / 3 C10"),
  "C13": ("exploration", "sched", "schedule-exploring PBT: Hypothesis-generated programs of buffered mutators inside buffer_backend(capacity) with flush-forcing capacities, deterministic scheduler, linearizability per file + exit/size/lock oracles",
-         "Generated 2-3 thread programs of buffered mutators over 1-3 files (shared or distinct objects) inside a backend-wide context with capacities that force flushes mid-operation; all single-preemption schedules / all preemption sites plus sampled deeper ones; outcomes and each file's final content must match a serial order, the exit must not raise, size 0, no deadlock or leaked lock.",
+         "Generated 2-3 thread programs of buffered mutators over 1-3 files (shared or distinct objects, optional thread-private reader objects, optional main-thread modifications before the threads start) inside a backend-wide context with capacities that force flushes mid-operation; all single-preemption schedules / all preemption sites plus sampled deeper ones; outcomes and each file's final content must match a serial order, the exit must not raise, size 0, no deadlock or leaked lock.",
          "as C09; reads not issued (C14)", "3 C13"),
  "C14": ("exploration", "sched", "schedule-exploring PBT with a real-time linearizability oracle over complete histories (reads included), unbuffered and buffered",
          "Generated reader/writer programs executed under the deterministic scheduler; the full history including reads must be linearizable w.r.t. real-time order against the plain model. Known finding K3 (unsynchronised reads on a shared object tree) is excluded by construction while it reproduces: each reading thread then gets its own object, and shared-memory-buffered programs run unbuffered.",
